@@ -121,7 +121,33 @@ def _to_number(codons):
 """
 
 
+_SEQ_ADD_REFERENCE = """
+def __add__(self, sequence):
+    if self.get_alphabet().extends(sequence.get_alphabet()):
+        new_code = np.concatenate((self._seq_code, sequence._seq_code))
+        new_seq = self.copy(new_code)
+        return new_seq
+    elif sequence.get_alphabet().extends(self.get_alphabet()):
+        new_code = np.concatenate((self._seq_code, sequence._seq_code))
+        new_seq = sequence.copy(new_code)
+        return new_seq
+    else:
+        raise ValueError('x')
+"""
+
+
+def sequence_add_rule(ctx, R):
+    """a + b is a NEW sequence over the concatenated codes (np.concatenate copies): a shortcut that hands one operand's code
+    array on makes the sum a window into that operand (shared with C13: AnnotatedSequence[feature] is built by `+=`)"""
+    from ..equiv import same_function
+    f = ctx.src(SEQ).func("Sequence.__add__")
+    ok, shown = same_function(f, _SEQ_ADD_REFERENCE)
+    ctx.ob(R + ".sum-is-new-sequence", SEQ, "Sequence.__add__", "copy(np.concatenate((self code, other code))) of the operand with the larger alphabet", ok,
+           "the sum must own its code array; the code computes " + shown, f.lineno)
+
+
 def run(ctx):
+    sequence_add_rule(ctx, "R5")
     t = ctx.src(TYPES)
     nuc = t.cls("NucleotideSequence")
     prot = t.cls("ProteinSequence")
